@@ -49,6 +49,10 @@ def check_safe(t, tz):
 
 
 def gen_grid(rng, cfg):
+    if cfg.get('grids'):
+        g = dict(rng.choice(cfg['grids']))
+        g['T'] = grid_T(g)
+        return g
     while True:
         try:
             return gen_grid0(rng, cfg)
@@ -164,6 +168,8 @@ def coarse_freq(rng, g, cfg):
     """a coarser asset frequency compatible with the grid (multiples of the grid step that divide T)"""
     if rng.random() > cfg.get('p_coarse', 0.0) or g['freq'] not in ('h', '30min', '15min'):
         return None
+    if cfg.get('coarse_freqs'):
+        return rng.choice(cfg['coarse_freqs'])
     T = g['T']
     base = {'h': 60, '30min': 30, '15min': 15}[g['freq']]
     cands = [m for m in (2, 3, 4) if T % m == 0 or cfg.get('coarse_any', False)]
